@@ -342,7 +342,11 @@ class SymCtx:
             s.add(h)
         s.add(goal_neg)
         t0 = time.perf_counter()
-        r = str(s.check())
+        core.CALL_STARTED[0] = time.time()
+        try:
+            r = str(s.check())
+        finally:
+            core.CALL_STARTED[0] = None
         self.oblig_solver_s += time.perf_counter() - t0
         self.oblig_queries += 1
         if r == 'unsat' and self.cross_check and tag is not None and self._cross_seen.get(tag, 0) < 2:
